@@ -160,6 +160,11 @@ static void DecodeAdr(tStrComp const* pArg, Word Mask) {
                 AdrMode = ModIndex;
                 AdrPart = 0;
             } else {
+                /* the '+' separates base register and displacement: it is
+                   not part of the expression ([HL+label], [HL+(expr)]) */
+                if (*Arg.str.p_str == '+') {
+                    StrCompIncRefLeft(&Arg, 1);
+                }
                 AdrVals[0] = EvalStrIntExpression(&Arg, UInt8, &OK);
                 if (OK) {
                     if (AdrVals[0] == 0) {
